@@ -55,6 +55,9 @@ DT_KERNELS = {
 import translate_obj as TO
 DT_KERNELS["TzObjKernels"] = dict(imports=["DateutilVerif.Model.ObjPy", "DateutilVerif.Generated.TzKernels"], groups=TO.OBJ_GROUPS, translate=TO.translate_files)
 
+# "RfcPy" kernel (harness/translate_rfc.py): tzical._parse_rfc (unfolding loop, line loop, whole function)
+import translate_rfc as TRFC
+DT_KERNELS["TzRfcKernels"] = dict(imports=["DateutilVerif.Model.RfcPy", "DateutilVerif.Generated.TzObjKernels"], groups=TRFC.RFC_GROUPS, translate=TRFC.translate_files)
 # "TzifPy" kernel (harness/translate_tzif.py): tzfile._read_tzfile, the TZif decoder and builder of the zone data (C06)
 import translate_tzif as TZF
 DT_KERNELS["TzifKernels"] = dict(imports=["DateutilVerif.Model.TzifPy"], groups=None, translate=TZF.translate_files)
@@ -157,6 +160,33 @@ def gen_factory(repo, out, report):
     except (T.Untranslatable, SyntaxError, OSError) as ex:
         report["kernels"]["FactoryPrograms"] = {"ok": False, "error": "%s: %s" % (type(ex).__name__, ex)}
 
+def gen_replace(repo, out, report):
+    """rrule.replace -> statement shape as data (harness/translate_replace.py; C12)"""
+    import translate_replace as TRP
+    src = os.path.join(repo, "src", "dateutil")
+    path = os.path.join(out, "ReplaceProgram.lean")
+    try:
+        text, fps = TRP.translate(src)
+        body = "/- GENERATED by harness/gen.py (translate_replace.py) from /repo's working tree — do not edit. -/\n"
+        body += "import DateutilVerif.Model.ReplacePy\n\nnamespace Gen\n\n" + text + "\nend Gen\n"
+        changed = write_if_changed(path, body)
+        report["kernels"]["ReplaceProgram"] = {"ok": True, "fingerprints": fps, "changed": changed}
+    except (T.Untranslatable, SyntaxError, OSError) as ex:
+        report["kernels"]["ReplaceProgram"] = {"ok": False, "error": "%s: %s" % (type(ex).__name__, ex)}
+def gen_str_kernels(repo, out, report):
+    """the text-handling prefix of _rrulestr._parse_rfc and the parameter loop of _parse_date_value (harness/translate_str.py; C13)"""
+    import translate_str as TS
+    src = os.path.join(repo, "src", "dateutil")
+    path = os.path.join(out, "RRuleStrKernels.lean")
+    try:
+        text, fps = TS.translate_all(src)
+        body = "/- GENERATED by harness/gen.py (translate_str.py) from /repo's working tree — do not edit. -/\n"
+        body += "import DateutilVerif.Model.StrPy\nimport DateutilVerif.Model.RRuleStr\n\nset_option linter.unusedVariables false\n\nnamespace Gen\n\n" + text + "\nend Gen\n"
+        changed = write_if_changed(path, body)
+        report["kernels"]["RRuleStrKernels"] = {"ok": True, "fingerprints": fps, "changed": changed}
+    except (T.Untranslatable, SyntaxError, OSError) as ex:
+        report["kernels"]["RRuleStrKernels"] = {"ok": False, "error": "%s: %s" % (type(ex).__name__, ex)}
+
 def gen_tables(repo, out, report):
     """Dump module-level tables from the *imported* working tree."""
     sys.path.insert(0, os.path.join(repo, "src"))
@@ -201,6 +231,8 @@ def main():
     gen_dt_kernels(a.repo, a.out, report)
     gen_rd_kernels(a.repo, a.out, report)
     gen_factory(a.repo, a.out, report)
+    gen_replace(a.repo, a.out, report)
+    gen_str_kernels(a.repo, a.out, report)
     gen_tables(a.repo, a.out, report)
     print(json.dumps(report))
 
